@@ -27,6 +27,10 @@ def _upper_bounded(conds, key, size):
     return False
 
 
+def _is_object_call(expr):
+    return isinstance(expr, ast.Call) and isinstance(expr.func, ast.Name) and expr.func.id == "object" and not expr.args and not expr.keywords
+
+
 class ExprMixin:
 
     def exc(self, st, cls, *args):
@@ -82,8 +86,8 @@ class ExprMixin:
                 if isinstance(v, (dict, list)):
                     return ("constobj", r[2].name + "." + name)
                 return const(v)
-            if isinstance(r[1], ast.Call):
-                return ("global", r[2].name + "." + name)
+            if _is_object_call(r[1]):
+                return ("sentinel", r[2].name + "." + name)
             return ("global", r[2].name + "." + name)
         return None
 
@@ -151,6 +155,8 @@ class ExprMixin:
             return const(v)
         if self.functable(("functable", owner.qual, name)) is not None:
             return ("functable", owner.qual, name)
+        if _is_object_call(expr):
+            return ("sentinel", owner.qual + "." + name)
         return ("classattr", owner.qual, name)
 
     def functable(self, t):
@@ -493,6 +499,17 @@ class ExprMixin:
                 return const(bool(res))
             except Exception:
                 pass
+        if op in ("is", "is not", "==", "!="):
+            # a sentinel (NAME = object(), made once when its module or class body runs) is identical to itself and to nothing
+            # else that has an identity of its own
+            sa, sb = isinstance(a, tuple) and a[:1] == ("sentinel",), isinstance(b, tuple) and b[:1] == ("sentinel",)
+            if sa and sb:
+                return const((a == b) == (op in ("is", "==")))
+            if sa or sb:
+                other = b if sa else a
+                if isinstance(other, tuple) and other[:1] in (("elem",), ("popped",), ("new",), ("const",), ("dfr",), ("timer",), ("func",),
+                                                              ("cls",), ("bm",), ("closure",), ("reg",), ("regtop",), ("tuple",)):
+                    return const(op in ("is not", "!="))
         # canonical order for symmetric operators: constant on the right
         if is_const(a) and not is_const(b) and op in FLIP:
             a, b, op = b, a, FLIP[op]
@@ -507,7 +524,7 @@ class ExprMixin:
     def nonnull_known(self, t):
         if not isinstance(t, tuple):
             return None
-        if t[0] in ("new", "bm", "func", "cls", "closure", "timer", "dfr", "exc", "tuple", "reg", "regtop",
+        if t[0] in ("new", "bm", "func", "cls", "closure", "timer", "dfr", "exc", "tuple", "reg", "regtop", "sentinel",
                     "loopcall", "encres", "lambda", "partial", "attrgetter", "functable"):
             return True
         if t[0] in ("elem", "popped"):
@@ -680,7 +697,7 @@ class ExprMixin:
         k = t[0]
         if k == "const":
             return bool(t[1])
-        if k in ("new", "bm", "func", "cls", "closure", "timer", "dfr", "loopcall", "exc", "elem", "popped"):
+        if k in ("new", "bm", "func", "cls", "closure", "timer", "dfr", "loopcall", "exc", "elem", "popped", "sentinel"):
             return True
         if k == "not":
             v = self.truth(t[1], st)
